@@ -285,7 +285,7 @@ func c20Concurrent(c *core.Ctx) {
 	if c.Tier == "thorough" {
 		rounds = 20000
 	}
-	mode := r.Intn(3)
+	mode := r.Intn(6)
 	var bad atomic.Value
 	var wg sync.WaitGroup
 	done := make(chan struct{})
@@ -301,7 +301,11 @@ func c20Concurrent(c *core.Ctx) {
 		for i := 0; i < rounds; i++ {
 			leaf := fmt.Sprintf("leaf-%d", i)
 			env := stackage.Or().Push(stackage.And().Push(leaf))
-			root.Push(env)
+			if mode == 3 {
+				root.Insert(env, 0)
+			} else {
+				root.Push(env)
+			}
 			var got any
 			var ok bool
 			switch mode {
@@ -309,6 +313,18 @@ func c20Concurrent(c *core.Ctx) {
 				got, ok = root.Pop()
 			case 1:
 				got, ok = root.Remove(root.Len() - 1)
+			case 3:
+				got, ok = root.Remove(0)
+			case 4:
+				// the whole stack is turned round and back while Reveal may be at work on it
+				root.Reverse()
+				root.Reverse()
+				got, ok = root.Pop()
+			case 5:
+				// the envelope changes places with the fixed leaf and back
+				root.Swap(0, root.Len()-1)
+				root.Swap(0, root.Len()-1)
+				got, ok = root.Pop()
 			default:
 				got, ok = root.Pop()
 				if i%64 == 63 {
@@ -347,7 +363,7 @@ func c20Concurrent(c *core.Ctx) {
 		}
 	}()
 	wg.Wait()
-	desc := map[string]any{"mode": []string{"push+pop", "push+remove", "push+pop+reset"}[mode], "rounds": rounds}
+	desc := map[string]any{"mode": []string{"push+pop", "push+remove", "push+pop+reset", "insert-front+remove-front", "push+reverse+reverse+pop", "push+swap+swap+pop"}[mode], "rounds": rounds}
 	if b, _ := bad.Load().(string); b != "" {
 		c.Violatef("concurrent", desc, "%s", b)
 		return
